@@ -83,6 +83,9 @@ func ParseReadCoilsRequestTCP(data []byte) (*ReadCoilsRequestTCP, error) {
 	if err != nil {
 		return nil, err
 	}
+	if len(data) < 12 {
+		return nil, newTCPRequestTooShortError(header, data, FunctionReadCoils)
+	}
 	unitID := data[6]
 	if data[7] != FunctionReadCoils {
 		tmpErr := NewErrorParseTCP(ErrIllegalFunction, "received function code in packet is not 0x01")
